@@ -76,8 +76,9 @@ def local_expr(F, B, l, depth):
         r = t.get("resolved")
         gargs = r["args"] if isinstance(r, dict) else (t.get("callee_args") or [])
         gs = tuple(F.ts(a["t"]) for a in gargs if "t" in a)
+        gi = tuple(a["t"] for a in gargs if "t" in a)
         name = (F.body(c) or {}).get("name") or t.get("callee_name") or c
-        return ("call", c, name, tuple(args), gs, d[1])
+        return ("call", c, name, tuple(args), gs, d[1], gi)
     rv = d[3]
     k = rv["k"]
     if k == "use":
@@ -89,7 +90,7 @@ def local_expr(F, B, l, depth):
     if k == "unop":
         return ("un", rv["op"], expr(F, B, rv["a"], depth + 1))
     if k in ("ref", "rawptr"):
-        return ("addr", place_expr(F, B, rv["place"], depth + 1) if not rv["place"]["p"] or True else None, place_str(rv["place"]))
+        return ("addr", place_expr(F, B, rv["place"], depth + 1), place_str(rv["place"]), "raw" if k == "rawptr" else "ref")
     if k == "agg":
         return ("agg", rv.get("agg"), rv.get("adt"), rv.get("variant"), tuple(expr(F, B, o, depth + 1) for o in rv["ops"]))
     if k == "discr":
@@ -143,7 +144,7 @@ def eval_int(e, leaf, bits=64):
 
 
 def show(e, depth=0):
-    if depth > 8:
+    if depth > 14:
         return "..."
     k = e[0]
     if k == "const":
@@ -158,11 +159,14 @@ def show(e, depth=0):
     if k == "un":
         return "%s(%s)" % ({"Not": "!", "Neg": "-"}.get(e[1], e[1]), show(e[2], depth + 1))
     if k == "call":
-        return "%s%s(%s)" % (e[2], "::<%s>" % ", ".join(x.split("::")[-1] for x in e[4]) if e[4] else "", ", ".join(show(a, depth + 1) for a in e[3]))
+        import re
+
+        short = lambda x: re.sub(r"\b(?:[a-z_0-9]+::)+", "", x)
+        return "%s%s(%s)" % (e[2], "::<%s>" % ", ".join(short(x) for x in e[4]) if e[4] else "", ", ".join(show(a, depth + 1) for a in e[3]))
     if k == "proj":
         return "%s.%s" % (show(e[1], depth + 1), ".".join(e[2]))
     if k == "addr":
-        return "&" + e[2]
+        return show(e[1], depth)  # references are transparent here
     if k == "tfield":
         return "%s.%d" % (show(e[1], depth + 1), e[2])
     return str(e[:2])
